@@ -102,6 +102,9 @@ def run(chk, facts):
                "unify_type no longer tests `parent.is_superset_of(child)`: the direction of every type comparison changed", facts.loc_of(ut))
     except AnchorError as e:
         chk.anchor_fail("R-C05-4", e)
+    chk.rule("R-C05-5", "no element is dropped before it is compared: every zip/take/skip in the checker is length-guarded or reviewed (shared census)")
+    from .quant import truncation_census
+    truncation_census(chk, facts, "R-C05-5")
     chk.notes.append("C05: sibling agreement of the arity matchers; census of all constraint sites with operand roles; hand-down of return_type/is_expr.")
 
 
